@@ -53,6 +53,12 @@ func (fdb *fsDb) Dump(ctx context.Context, key []byte) (*db.Dumper, error) {
 		if bytes.HasPrefix(kkk, key) {
 			vv, err := fdb.Get(ctx, kk)
 			if err != nil {
+				if db.IsNotFound(err) {
+					// an entry that cannot be read in this context (a translation without a
+					// default-language entry, seen without a language) is not part of this
+					// listing; the entries behind it are
+					continue
+				}
 				return nil, err
 			}
 			return db.NewDumper(fdb.dumpFunc).WithFirst(kk, vv), nil
@@ -75,6 +81,9 @@ func (fdb *fsDb) dumpFunc(ctx context.Context) ([]byte, []byte) {
 		if bytes.HasPrefix(kkk, fdb.matchPrefix) {
 			vv, err := fdb.Get(ctx, kk)
 			if err != nil {
+				if db.IsNotFound(err) {
+					continue
+				}
 				return nil, nil
 			}
 			return kk, vv
